@@ -136,7 +136,7 @@ def check_boundary(desc):
 
             D = np.asarray(T(bt).T @ Aloc @ T(bd))
         ref = D @ x
-        scale = max(float(np.max(np.abs(D))) * max(1.0, float(np.max(np.abs(x)))), 1e-300)
+        scale = max(float(np.max(np.abs(D))), og.entry_floor(gd, fam, op)) * max(1.0, float(np.max(np.abs(x))))
         err = float(np.max(np.abs(y - ref))) / scale
         cls = f"{_cls(gt, kwt)}-{_cls(gd, kwd)}" + ("/bary" if bary else "") + ("/two_grids" if two else "")
         if err > TOL:
